@@ -202,25 +202,146 @@ def trace_leg(ctx: Ctx, n: int):
     ctx.sample({"fuzz_record": {"string": recs[0]["s"], "observed": recs[0]["obs"]}})
 
 
+# ------------------------------------------------------------------ explicit probes
+PROBES = ["[[a ~ b] ~ c]", "[[a~b]~c] + d", "[[a ~ b] + [c ~ d] ~ e]", "[a ~ [b ~ c]]", "(a]", "a**(0)", "(a-a)/b", "f(``)", "a ~", "~", "[", "]", "[]", "[~]", "[a]",
+          "[a ~ b", "a ~ b]", "a | | b", "a ^ b ^ c", "a %in% ", "`", "``", "'", "a'b", "{a", "a}", "{", "}", "a ~ b ~ c", "0 ~ 0", "1 | 1 ~ 1", "a:", ":a", "a::b", "a + (", "a())", "f(", "f(a))", "I(", ".",
+          ". ~ .", "a ~ . | .", "-", "--1", "a - - a", "+", "a +", "()", "(())", "a()", "1()", "(a)(b)", "a b", "1 2", "a 1", "`a` `b`", "a\\", "\\"]
+
+
+def probe_leg(ctx: Ctx):
+    """The strings the property statement itself names plus bracket/multistage corner cases, under every flag subset."""
+    fl = ["TWOSIDED", "MULTIPART", "MULTISTAGE"]
+    subsets = [[f for i, f in enumerate(fl) if m >> i & 1] for m in range(8)]
+    for s in PROBES:
+        for flags in subsets:
+            for intercept in (True, False):
+                cfg = {"intercept": intercept, "flags": flags, "avail": {"present": True, "vars": []}}
+                obs = outcome(s, cfg)
+                ctx.traces += 1
+                ctx.evaluations += 1
+                if obs not in ("O", "R", "P"):
+                    ctx.violation({"string": s, "cfg": cfg}, {"why": "escaped:" + obs, "string": s}, kind="probe")
+                elif obs == "P":
+                    try:
+                        from formulaic.parser.algos.tokenize import tokenize
+
+                        frs = [t.token for t in tokenize(s) if t.kind and t.kind.value == "python"]
+                    except Exception:  # noqa
+                        frs = []
+                    if not any(not frag_valid(f) for f in frs):
+                        ctx.violation({"string": s, "cfg": cfg}, {"why": "python-syntax-error-without-invalid-fragment", "string": s}, kind="probe")
+
+
+def _m_nested_multistage(match, case, detail):
+    """D33: the specific call site - tilde's nested-multistage branch raising NotImplementedError with its own message."""
+    s, cfg = case.get("string"), case.get("cfg")
+    if s is None or cfg is None or "MULTISTAGE" not in cfg.get("flags", []):
+        return False
+    cfg = dict(cfg)
+    cfg.setdefault("avail", {"present": True, "vars": []})
+    o = palpha.parse_formula(s, cfg)
+    return o["st"] == "ESCAPED" and o.get("cls") == "NotImplementedError" and str(o.get("msg", "")).startswith(match["message_prefix"])
+
+
+MATCHERS = {"notimplemented_nested_multistage_structured_lhs": _m_nested_multistage}
+
+
+# ------------------------------------------------------------------ parser sessions
+def replay_session(case):
+    """One history of public calls on (at most two) parser objects; the expected outcome of every parse step comes from the model."""
+    import copy
+    import pickle
+
+    from formulaic.parser import DefaultFormulaParser
+
+    from .c01 import res_str
+
+    objs, bad = {}, []
+    for n, st in enumerate(case["hist"]):
+        op, s = st["op"], st["s"]
+        if op == "new":
+            objs[s] = DefaultFormulaParser(feature_flags=set(st["arg"]))
+        elif op == "set_flags":
+            r = objs[s].set_feature_flags(set(st["arg"]))
+            if r is not objs[s]:
+                bad.append({"step": n, "why": "set_feature_flags did not return the parser"})
+        elif op == "toggle_intercept":
+            objs[s].include_intercept = not objs[s].include_intercept
+        elif op == "pickle":
+            objs[int(st["arg"][0])] = pickle.loads(pickle.dumps(objs[s]))
+        elif op == "deepcopy":
+            objs[int(st["arg"][0])] = copy.deepcopy(objs[s])
+        elif op == "parse":
+            p, text = objs[s], st["arg"][0]
+            obs = palpha.observe(lambda: p.get_terms(text))
+            got = res_str(obs)
+            if obs["st"] in ("ESCAPED", "TIMEOUT", "PYSYNTAX") or (st["out"] != "U" and got != st["out"]):
+                bad.append({"step": n, "formula": text, "expected": st["out"], "observed": got,
+                            "flags_now": sorted(f.name for f in type(p.feature_flags) if f.name in ("TWOSIDED", "MULTIPART", "MULTISTAGE") and f in p.feature_flags)})
+    return [{"history": [[h["op"], h["s"], h["arg"]] for h in case["hist"]], **b} for b in bad]
+
+
+def session_leg(ctx: Ctx, maxops: int):
+    out = workdir("c14") / "sessions.ndjson"
+    out.unlink(missing_ok=True)
+    cfg = (f"SPECIFICATION Spec\nCONSTANTS\n  MaxOps = {maxops}\n  Emit = TRUE\n  Variant = \"code\"\n"
+           "INVARIANT TypeOK\nINVARIANT CacheCoherent\nINVARIANT PureParse\nINVARIANT DisabledRejected\nINVARIANT NeedsTable\nINVARIANT EmitCase\n")
+    r = run_tlc("MC_ParserSession", cfg, tag="c14s", env={"OUT_FILE": str(out)}, timeout=3000)
+    if r.violated:
+        ctx.model_violation(r, "MC_ParserSession")
+    ctx.add_tlc(r, f"parser object histories (set_feature_flags / include_intercept / parse / pickle / deepcopy on two objects) <= {maxops} calls: "
+                   "cache coherence, parse is a function of the public configuration, disabled operators rejected on every history")
+    # the law is not vacuous on the bounded model: both seeded design errors are found by TLC
+    for variant in ("stale", "lossy"):
+        v = run_tlc("MC_ParserSession", cfg.replace('"code"', f'"{variant}"').replace("Emit = TRUE", "Emit = FALSE").replace("INVARIANT CacheCoherent\n", ""),
+                    tag="c14s", timeout=3000)
+        if "PureParse" not in v.violated and "DisabledRejected" not in v.violated:
+            raise MachineryError(f"MC_ParserSession variant {variant} does not violate the parse laws: the bounded model is vacuous")
+        ctx.notes[f"session_model_variant_{variant}"] = "violates " + ",".join(v.violated)
+    cases = read_emitted(out)
+    if len(cases) != r.distinct:
+        raise MachineryError(f"emission incomplete: {len(cases)} of {r.distinct}")
+    res = pmap("harness.props.c14", "replay_session", cases, chunk=300)
+    for c, bad in zip(cases, res):
+        ctx.traces += 1
+        nparse = sum(1 for h in c["hist"] if h["op"] == "parse")
+        ctx.evaluations += nparse
+        if nparse >= 1 and len(c["hist"]) >= 3:
+            ctx.nontrivial.add(("session", json.dumps(c["hist"], sort_keys=True)))
+        for b in bad:
+            ctx.violation({"session": b["history"], "step": b["step"]}, b, kind="replay")
+    full = [c for c in cases if len(c["hist"]) == maxops + 1 and c["hist"][-1]["op"] == "parse"]
+    if full:
+        ctx.sample({"parser_session": full[len(full) // 2]["hist"]})
+    out.unlink()
+
+
 def run(ctx: Ctx) -> None:
     ctx.rule = ("every character string over the model alphabet up to the bound x 3 parser configurations; mutation-fuzzed formulas in the "
-                "trace leg; non-trivial = lexes into >= 2 tokens (replay) / is rejected with the library error and is longer than 6 characters (trace)")
+                "trace leg; every history of public calls on two parser objects up to the bound; non-trivial = lexes into >= 2 tokens (replay) / is rejected with the library error and is longer than 6 characters (trace)")
     ctx.trusted = ["ast.parse as the oracle of 'the fragment is itself syntactically invalid'", "lexical classes from the documented regexes", "TLC"]
+    ctx.matchers = MATCHERS
+    probe_leg(ctx)
     if ctx.quick:
         enumerated(ctx, 3, "c27")
         enumerated(ctx, 4, "c16")
         trace_leg(ctx, 3000)
+        session_leg(ctx, 3)
     else:
         enumerated(ctx, 4, "c27")
         enumerated(ctx, 5, "c16")
         enumerated(ctx, 6, "c8")
         trace_leg(ctx, 60000)
+        session_leg(ctx, 4)
     ctx.exhaustive = True
 
 
 def replay(path: str) -> int:
     rec = json.load(open(path))
     c = rec["case"]
+    if "session" in c:
+        print(json.dumps(rec["detail"], indent=1))
+        return 0
     cfg = dict(c["cfg"])
     cfg.setdefault("avail", {"present": True, "vars": []})
     print(repr(c["string"]), cfg, "->", outcome(c["string"], cfg))
